@@ -1135,7 +1135,7 @@ func ConcPaths(fn *ssa.Function, cfg ConcCfg) (seqs []string, truncated bool) {
 									st.fmem = map[string]int64{}
 								}
 							}
-							st.fmem[base+"."+stt.Field(i).Name()] = 0
+							st.fmem[base+"."+FN(stt.Field(i))] = 0
 						}
 					}
 				}
@@ -1257,7 +1257,7 @@ func ConcPaths(fn *ssa.Function, cfg ConcCfg) (seqs []string, truncated bool) {
 				// a field of a struct value: of the variable it was just loaded from, when that is evident
 				if len(st.fmem) > 0 || len(st.fvals) > 0 {
 					if st2, isS := types.Unalias(x.X.Type()).Underlying().(*types.Struct); isS && x.Field < st2.NumFields() {
-						if kv, isInt, fv := st.FieldOf(x.X, st2.Field(x.Field).Name()); isInt {
+						if kv, isInt, fv := st.FieldOf(x.X, FN(st2.Field(x.Field))); isInt {
 							st = st.clone()
 							st.ints[x] = kv
 						} else if fv != nil {
